@@ -36,8 +36,31 @@ def determinism(props, runs=500, seed=7):
     return bad
 
 
+def guard_audit(runs=6000):
+    """for every open finding: (a) its scripted history still fails, (b) with that one guard
+    disabled the check of its property does report violations (the guard is necessary)"""
+    sys.path.insert(0, ROOT)
+    sys.path.insert(0, '/repo')
+    from dst import findings, scripted
+    bad = 0
+    for e in findings.open_findings():
+        still = scripted.run_script(e)
+        env = dict(os.environ, DST_DISABLE_GUARD=e['id'])
+        env.pop('DST_REEXEC', None)
+        p = subprocess.run([sys.executable, os.path.join(ROOT, 'check'), e['property'], '--runs', str(runs), '--no-min'],
+                           capture_output=True, text=True, env=env, timeout=1800)
+        fires = p.returncode == 1 and 'VIOLATION' in p.stdout
+        print("guard-audit %s (%s): scripted history still fails=%s; violations without the guard=%s" % (
+            e['id'], e['property'], still, fires))
+        if not (still and fires):
+            bad += 1
+    return bad
+
+
 if __name__ == '__main__':
     what = sys.argv[1]
     props = sys.argv[2:] or PROPS
+    if what == 'guard-audit':
+        sys.exit(1 if guard_audit() else 0)
     if what == 'determinism':
         sys.exit(1 if determinism(props) else 0)
